@@ -24,6 +24,14 @@ type Guard struct {
 	Weak  bool     // neither successor rejects outright (conjunct / disjunct of a larger condition)
 	Ctx   []string // unexpected conditions dominating the guard, along the whole call chain
 	Chain []string // call chain from the entry
+	Sites []Site   // the call-site blocks along the chain, ending with the guard's own block
+}
+
+// A Site is a block of a function analysed under an environment.
+type Site struct {
+	Fn    *ssa.Function
+	Block *ssa.BasicBlock
+	Env   *Env
 }
 
 func (g Guard) String() string {
@@ -45,6 +53,7 @@ type fnInfo struct {
 	kind      string // error | bool | void
 	canAccept map[*ssa.BasicBlock]bool
 	loopsOf   map[*ssa.BasicBlock][]*ssa.BasicBlock // block -> headers of the loops containing it
+	loopBody  map[*ssa.BasicBlock]map[*ssa.BasicBlock]bool
 	delegates []*ssa.Call
 }
 
@@ -108,7 +117,7 @@ func (ge *GuardEngine) info(fn *ssa.Function) *fnInfo {
 	if fi := ge.infos[fn]; fi != nil {
 		return fi
 	}
-	fi := &fnInfo{fn: fn, kind: fnKind(fn), canAccept: map[*ssa.BasicBlock]bool{}, loopsOf: map[*ssa.BasicBlock][]*ssa.BasicBlock{}}
+	fi := &fnInfo{fn: fn, kind: fnKind(fn), canAccept: map[*ssa.BasicBlock]bool{}, loopsOf: map[*ssa.BasicBlock][]*ssa.BasicBlock{}, loopBody: map[*ssa.BasicBlock]map[*ssa.BasicBlock]bool{}}
 	ge.infos[fn] = fi
 	if len(fn.Blocks) == 0 {
 		return fi
@@ -162,6 +171,16 @@ func (ge *GuardEngine) info(fn *ssa.Function) *fnInfo {
 					body[x] = true
 					st = append(st, x.Preds...)
 				}
+				if prev := fi.loopBody[h]; prev != nil {
+					for b := range body {
+						if !prev[b] {
+							prev[b] = true
+							fi.loopsOf[b] = append(fi.loopsOf[b], h)
+						}
+					}
+					continue
+				}
+				fi.loopBody[h] = body
 				for b := range body {
 					fi.loopsOf[b] = append(fi.loopsOf[b], h)
 				}
@@ -410,9 +429,23 @@ func (ge *GuardEngine) calleeEnv(callee *ssa.Function, c *ssa.CallCommon, env *E
 	return ne
 }
 
+type ctxEdge struct {
+	d    *ssa.BasicBlock
+	edge int
+	desc string
+}
+
 // condCtx describes the unexpected (non-rejecting, non-loop) conditions under which block b runs.
 func (ge *GuardEngine) condCtx(fi *fnInfo, b *ssa.BasicBlock, env *Env) []string {
 	var out []string
+	for _, e := range ge.ctxEdges(fi, b, env) {
+		out = append(out, e.desc)
+	}
+	return out
+}
+
+func (ge *GuardEngine) ctxEdges(fi *fnInfo, b *ssa.BasicBlock, env *Env) []ctxEdge {
+	var out []ctxEdge
 	for cur := b; cur != nil; cur = cur.Idom() {
 		d := cur.Idom()
 		if d == nil || len(d.Instrs) == 0 {
@@ -439,7 +472,10 @@ func (ge *GuardEngine) condCtx(fi *fnInfo, b *ssa.BasicBlock, env *Env) []string
 		if !fi.canAccept[d.Succs[1-edge]] {
 			continue
 		}
+		saved := ge.pv.loadCtx
+		ge.pv.loadCtx = []ssa.Instruction{ifi}
 		l, op, r := ge.decompose(ifi.Cond, env)
+		ge.pv.loadCtx = saved
 		if edge == 1 {
 			op = negOp[op]
 		}
@@ -447,7 +483,7 @@ func (ge *GuardEngine) condCtx(fi *fnInfo, b *ssa.BasicBlock, env *Env) []string
 		if op == "true" || op == "false" {
 			s = l + " is " + op
 		}
-		out = append(out, s)
+		out = append(out, ctxEdge{d, edge, s})
 	}
 	// outermost first
 	for i, j := 0, len(out)-1; i < j; i, j = i+1, j-1 {
@@ -459,6 +495,10 @@ func (ge *GuardEngine) condCtx(fi *fnInfo, b *ssa.BasicBlock, env *Env) []string
 // Guards collects the guards of fn (under env) and, recursively, of the callees whose rejection
 // propagates to fn's rejection.
 func (ge *GuardEngine) Guards(fn *ssa.Function, env *Env, chain []string, ctx []string, depth int, seen map[*ssa.Function]int) []Guard {
+	return ge.guardsRec(fn, env, chain, ctx, nil, depth, seen)
+}
+
+func (ge *GuardEngine) guardsRec(fn *ssa.Function, env *Env, chain []string, ctx []string, sites []Site, depth int, seen map[*ssa.Function]int) []Guard {
 	if fn == nil || len(fn.Blocks) == 0 || depth > ge.Depth || seen[fn] > 1 {
 		return nil
 	}
@@ -474,7 +514,8 @@ func (ge *GuardEngine) Guards(fn *ssa.Function, env *Env, chain []string, ctx []
 		}
 		cctx := append(append([]string{}, ctx...), ge.condCtx(fi, at, env)...)
 		cctx = append(cctx, extraCtx...)
-		out = append(out, ge.Guards(callee, ge.calleeEnv(callee, &call.Call, env), chain, cctx, depth+1, seen)...)
+		csites := append(append([]Site{}, sites...), Site{fn, at, env})
+		out = append(out, ge.guardsRec(callee, ge.calleeEnv(callee, &call.Call, env), chain, cctx, csites, depth+1, seen)...)
 	}
 	for _, b := range fn.Blocks {
 		if len(b.Instrs) == 0 {
@@ -485,6 +526,7 @@ func (ge *GuardEngine) Guards(fn *ssa.Function, env *Env, chain []string, ctx []
 			continue
 		}
 		rt, rf := !fi.canAccept[b.Succs[0]], !fi.canAccept[b.Succs[1]]
+		ge.pv.loadCtx = []ssa.Instruction{ifi}
 		l, op, r := ge.decompose(ifi.Cond, env)
 		g := Guard{Fn: fn, Block: b, Pos: ifi.Cond.Pos(), L: l, Op: op, R: r, Chain: chain}
 		if !g.Pos.IsValid() {
@@ -503,6 +545,7 @@ func (ge *GuardEngine) Guards(fn *ssa.Function, env *Env, chain []string, ctx []
 			}
 		}
 		g.Ctx = append(append([]string{}, ctx...), ge.condCtx(fi, b, env)...)
+		g.Sites = append(append([]Site{}, sites...), Site{fn, b, env})
 		out = append(out, g)
 		// error-propagating / predicate calls: expand the callee
 		if !g.Weak {
@@ -583,7 +626,7 @@ func opIn(op string, ops []string) bool {
 }
 
 // CheckReq decides one guard requirement against the collected guards.
-func CheckReq(c *Ctx, rule string, req GuardReq, guards []Guard) {
+func (ge *GuardEngine) CheckReq(c *Ctx, rule string, req GuardReq, guards []Guard) {
 	lre, err1 := regexp.Compile(req.L)
 	rre, err2 := regexp.Compile(req.R)
 	if err1 != nil || err2 != nil {
@@ -626,32 +669,8 @@ func CheckReq(c *Ctx, rule string, req GuardReq, guards []Guard) {
 			problems = append(problems, fmt.Sprintf("%s: the comparison does not by itself lead to rejection (only in conjunction with other conditions)", where))
 			continue
 		}
-		var bad []string
-		for _, cx := range cd.g.Ctx {
-			ok := false
-			// type-switch contexts: a failed assertion is free; a successful one is implied when the
-			// asserted value is what the guard compares
-			if strings.HasPrefix(cx, "ok:") {
-				if strings.HasSuffix(cx, " is false") {
-					ok = true
-				} else if strings.HasSuffix(cx, " is true") {
-					av := strings.TrimSuffix(strings.TrimPrefix(cx, "ok:"), " is true")
-					if strings.Contains(av, ".(") && (strings.Contains(cd.g.L, av) || strings.Contains(cd.g.R, av)) {
-						ok = true
-					}
-				}
-			}
-			for _, re := range ctxRes {
-				if re.MatchString(cx) {
-					ok = true
-				}
-			}
-			if !ok {
-				bad = append(bad, cx)
-			}
-		}
-		if len(bad) > 0 {
-			problems = append(problems, fmt.Sprintf("%s: guard can be bypassed — it is only evaluated when %s", where, strings.Join(bad, " && ")))
+		if why := ge.siteProblems(cd.g, ctxRes); why != "" {
+			problems = append(problems, fmt.Sprintf("%s: %s", where, why))
 			continue
 		}
 		hits[where] = true
@@ -713,4 +732,190 @@ func fieldStores(fn *ssa.Function, field string) []*ssa.Store {
 		}
 	}
 	return out
+}
+
+
+// ctxAllowed decides whether a dominating condition is a legitimate context of a guard/call whose
+// operands are given: listed patterns; a successful type assertion whose value the operands use;
+// a failed type assertion on a value for which a successful assertion is legitimate (other cases
+// of the same type switch).
+func ctxAllowed(descs []string, allowed []*regexp.Regexp, operands []string) []bool {
+	ok := make([]bool, len(descs))
+	posOK := map[string]bool{} // asserted expressions X with a legitimate positive assertion
+	assertX := func(d string) (string, bool, bool) {
+		if !strings.HasPrefix(d, "ok:") {
+			return "", false, false
+		}
+		body := strings.TrimPrefix(d, "ok:")
+		pos := strings.HasSuffix(body, " is true")
+		body = strings.TrimSuffix(strings.TrimSuffix(body, " is true"), " is false")
+		i := strings.LastIndex(body, ".(")
+		if i < 0 {
+			return "", false, false
+		}
+		return body[:i], pos, true
+	}
+	for i, d := range descs {
+		for _, re := range allowed {
+			if re.MatchString(d) {
+				ok[i] = true
+			}
+		}
+		if x, pos, isAssert := assertX(d); isAssert && pos {
+			av := strings.TrimSuffix(strings.TrimPrefix(d, "ok:"), " is true")
+			for _, o := range operands {
+				if strings.Contains(o, av) {
+					ok[i] = true
+				}
+			}
+			if ok[i] {
+				posOK[x] = true
+			}
+		}
+	}
+	for i, d := range descs {
+		if x, pos, isAssert := assertX(d); isAssert && !pos {
+			if posOK[x] {
+				ok[i] = true
+			}
+			for _, o := range operands {
+				if strings.Contains(o, x+".(") {
+					ok[i] = true // the operands use another case of the same type switch
+				}
+			}
+		}
+	}
+	return ok
+}
+
+// siteProblems checks, at every site of the guard's call chain, that (1) no unexpected condition
+// dominates the site and (2) no accepting path through the enclosing scopes avoids the site.
+func (ge *GuardEngine) siteProblems(g Guard, allowed []*regexp.Regexp) string {
+	operands := []string{g.L, g.R}
+	for _, st := range g.Sites {
+		fi := ge.info(st.Fn)
+		edges := ge.ctxEdges(fi, st.Block, st.Env)
+		var descs []string
+		for _, e := range edges {
+			descs = append(descs, e.desc)
+		}
+		okv := ctxAllowed(descs, allowed, operands)
+		legit := map[[2]int]bool{} // (block index, successor number) edges that legitimately bypass the site
+		var bad []string
+		for i, e := range edges {
+			if okv[i] {
+				legit[[2]int{e.d.Index, 1 - e.edge}] = true
+			} else {
+				bad = append(bad, e.desc)
+			}
+		}
+		if len(bad) > 0 {
+			return "guard can be bypassed — it is only evaluated when " + strings.Join(bad, " && ")
+		}
+		if path := ge.bypassPath(fi, st.Block, legit); path != "" {
+			return "guard can be bypassed — an accepting path avoids it: " + path
+		}
+	}
+	return ""
+}
+
+// bypassPath searches, scope by scope (innermost loop first, then enclosing loops, then the
+// function), for a path that completes the scope normally without executing block g.
+func (ge *GuardEngine) bypassPath(fi *fnInfo, g *ssa.BasicBlock, legit map[[2]int]bool) string {
+	fn := fi.fn
+	// loops containing g, innermost (smallest body) first
+	hs := append([]*ssa.BasicBlock{}, fi.loopsOf[g]...)
+	sort.Slice(hs, func(i, j int) bool { return len(fi.loopBody[hs[i]]) < len(fi.loopBody[hs[j]]) })
+	avoid := g
+	isAcceptingReturn := func(b *ssa.BasicBlock) bool {
+		if len(b.Instrs) == 0 {
+			return false
+		}
+		_, isRet := b.Instrs[len(b.Instrs)-1].(*ssa.Return)
+		return isRet && fi.canAccept[b]
+	}
+	search := func(starts []*ssa.BasicBlock, body map[*ssa.BasicBlock]bool, header *ssa.BasicBlock) string {
+		type item struct {
+			b    *ssa.BasicBlock
+			from *item
+		}
+		seen := map[*ssa.BasicBlock]bool{avoid: true}
+		var q []*item
+		for _, s := range starts {
+			if s != avoid {
+				q = append(q, &item{s, nil})
+			}
+		}
+		render := func(it *item) string {
+			var parts []string
+			for x := it; x != nil; x = x.from {
+				if len(x.b.Instrs) > 0 {
+					if ifi, ok := x.b.Instrs[len(x.b.Instrs)-1].(*ssa.If); ok {
+						pos := ifi.Cond.Pos()
+						if pos.IsValid() {
+							parts = append(parts, ge.p.Pos(pos))
+						}
+					}
+				}
+			}
+			for i, j := 0, len(parts)-1; i < j; i, j = i+1, j-1 {
+				parts[i], parts[j] = parts[j], parts[i]
+			}
+			if len(parts) > 4 {
+				parts = parts[len(parts)-4:]
+			}
+			return "branches at " + strings.Join(parts, " -> ")
+		}
+		for len(q) > 0 {
+			it := q[0]
+			q = q[1:]
+			b := it.b
+			if seen[b] {
+				continue
+			}
+			seen[b] = true
+			if header != nil {
+				if b == header {
+					return render(it) + " (iteration completes)"
+				}
+				if !body[b] {
+					if fi.canAccept[b] {
+						return render(it) + " (loop left early)"
+					}
+					continue
+				}
+			} else if isAcceptingReturn(b) {
+				return render(it) + " -> " + ge.p.Pos(b.Instrs[len(b.Instrs)-1].Pos())
+			}
+			for i, sc := range b.Succs {
+				if legit[[2]int{b.Index, i}] {
+					continue
+				}
+				if !fi.canAccept[sc] && !(header != nil && sc == header) {
+					continue
+				}
+				q = append(q, &item{sc, it})
+			}
+		}
+		return ""
+	}
+	for _, h := range hs {
+		body := fi.loopBody[h]
+		var starts []*ssa.BasicBlock
+		for i, sc := range h.Succs {
+			if body[sc] && sc != h && !legit[[2]int{h.Index, i}] {
+				starts = append(starts, sc)
+			}
+		}
+		if p := search(starts, body, h); p != "" {
+			return p
+		}
+		avoid = h
+	}
+	if len(fn.Blocks) > 0 && fn.Blocks[0] != avoid {
+		if p := search([]*ssa.BasicBlock{fn.Blocks[0]}, nil, nil); p != "" {
+			return p
+		}
+	}
+	return ""
 }
